@@ -115,12 +115,19 @@ STAGED = [
     # the controller comes back at the very instant idle workers time out
     {"mx": 2, "mn": 0, "timeout": 5, "main": [("start",), ("enq", "ret"), ("enq", "ret"), ("wait", 0, 1000.0), ("wait", 1, 1000.0), ("sleep", "T"), ("enq", "ret"), ("wait", 2, 1000.0), ("join",)], "others": []},
     {"mx": 2, "mn": 1, "timeout": 5, "main": [("start",), ("enq", "ret"), ("enq", "ret"), ("sleep", "T"), ("enq", "ret"), ("enq", "ret"), ("join",)], "others": []},
+    {"mx": 1, "mn": 0, "timeout": 5, "main": [("start",), ("enq", "ret"), ("wait", 0, 1000.0), ("sleep", "T"), ("enq", "ret"), ("wait", 1, 1000.0), ("join",)], "others": []},
 ]
 
 
 def sweep_cases(tier):
     for i in range(len(STAGED)):
         yield {"program": i, "occurrences": 1 if tier == "quick" else 2}
+    # programs whose controller sleeps exactly one idle period of the pool: the sleeper and the idle workers become
+    # runnable at the same instant; the sweep above lets the oldest thread (the controller) go first, this one a worker
+    for i in range(len(STAGED)):
+        if ("sleep", "T") in STAGED[i]["main"]:
+            for rotate in (1, 2):
+                yield {"program": i, "occurrences": 1 if tier == "quick" else 2, "rotate": rotate}
 
 
 def make_sweep_oracle(prefix):
@@ -134,16 +141,16 @@ def make_sweep_oracle(prefix):
             return P.run_program(prog, chooser, True, policy)
 
         nthreads = 2 + prog["mx"] + len(prog["others"])
-        for pre, run, ch in D.single_preemption_sweep(run_once, max_points=4000, occurrences=case["occurrences"], threads=min(nthreads, 3)):
+        for pre, run, ch in D.single_preemption_sweep(run_once, max_points=4000, occurrences=case["occurrences"], threads=min(nthreads, 3), rotate=case.get("rotate", 0)):
             n += 1
             for v in run.problems:
                 if v.signature.split("/")[0] in prefix:
-                    v.replay_case = {"prog": prog, "sched": ("preempt", [list(pre[:2])] if pre else [], 0), "lines": True, "policy": policy}
+                    v.replay_case = {"prog": prog, "sched": ("preempt", [list(pre[:2])] if pre else [], case.get("rotate", 0)), "lines": True, "policy": policy}
                     v.replay_sub = "random"
                     raise v
-            infos.append(Info(nt=pre is not None, classes=["sweep", "program:%d" % case["program"]], key=(case["program"], pre[:2] if pre else None),
-                              sample={"prog": prog, "preempt-at": list(pre) if pre else None}))
-        infos.append(Info(classes=["sweep-complete"], key=("sweep", case["program"], case["occurrences"]), sample={"program": case["program"], "schedules": n}))
+            infos.append(Info(nt=pre is not None, classes=["sweep", "program:%d" % case["program"]], key=(case["program"], case.get("rotate", 0), pre[:2] if pre else None),
+                              sample={"prog": prog, "rotate": case.get("rotate", 0), "preempt-at": list(pre) if pre else None}))
+        infos.append(Info(classes=["sweep-complete"] + (["sweep-timeout-coincidence"] if case.get("rotate") else []), key=("sweep", case["program"], case.get("rotate", 0), case["occurrences"]), sample={"program": case["program"], "schedules": n}))
         return Info(multi=infos)
     return sweep_oracle
 
